@@ -163,7 +163,10 @@ def crash_record(plan, code, err):
     elif "panic:" in txt or "fatal error:" in txt:
         where = panic_where(txt)
     else:
-        return {"run": plan.get("run", -1), "reason": "harness", "harness": "exit %s: %s" % (code, txt[-2000:]), "violations": [], "steps": 0, "virtual_ns": 0, "sig": "", "states": 0, "requests": 0, "wall_us": 0}
+        # (no panic, no fatal error, no race report: a death by signal. Head and tail of the output are kept:
+        # the first lines name the signal, the last the goroutines)
+        return {"run": plan.get("run", -1), "reason": "harness", "signal_death": True,
+                "harness": "exit %s: %s\n...\n%s" % (code, txt[:700], txt[-1500:]), "violations": [], "steps": 0, "virtual_ns": 0, "sig": "", "states": 0, "requests": 0, "wall_us": 0}
     v = {"property": prop, "class": cls, "key": {"where": where}, "step": -1, "t_ns": -1, "detail": txt[-3000:]}
     vs = [v]
     if cls == "panic":
@@ -276,7 +279,20 @@ def explore(sc, prop, tier, seed, budget, workers, extra_env=None):
                 else:
                     rec = crash_record(plan, rc, err)
                     rec["plan"] = plan
-                    if rec["reason"] == "harness":
+                    if rec["reason"] == "harness" and rec.get("signal_death"):
+                        # A worker that dies of a signal with neither a Go panic nor a race report (seen once:
+                        # a -race worker, thorough tier) says nothing about the plan it was running unless
+                        # the plan does it again: run that plan alone in a fresh process. If it completes,
+                        # its record counts and the death is logged as a tool incident; if it dies again,
+                        # that is harness trouble (exit 2).
+                        rec2, code2, err2 = run_plan(sc, plan, extra_env=extra_env, timeout=600)
+                        if rec2 is not None and code2 == 0:
+                            log("worker %d died of a signal while running plan %s; the plan alone completes (tool incident, not a verdict): %s" % (w["i"], plan.get("run"), rec["harness"][:400].replace("\n", " | ")))
+                            rec2["plan"] = plan
+                            recs.append(rec2)
+                        else:
+                            harness.append(rec["harness"] + "\n(again when run alone: exit %s)" % code2)
+                    elif rec["reason"] == "harness":
                         harness.append(rec["harness"])
                     else:
                         recs.append(rec)
